@@ -136,7 +136,8 @@ def memcmpPtrIds (tbl : List Desc) (rowElems : List (Nat × ElemLayout)) : List 
 /-- a member-wise compare spec covers every non-pointer member of the element struct and no pointer -/
 def specCovers (c : CmpSpec) (l : ElemLayout) : Bool :=
   c.size == l.size &&
-  l.members.all (fun m => (m.kind == .ptr || m.kind == .fptr) != c.members.contains m) 
+  l.members.all (fun m => (m.kind == .ptr || m.kind == .fptr) !=
+    c.members.any (fun x => x.off == m.off && x.size == m.size))
 
 def tableIdsNodup (tbl : List Desc) : Bool := nodupNat ((live tbl).map (·.id))
 
